@@ -46,7 +46,9 @@ CLAIMED = {'C01': {'text': 'Decides, for every public psutil.Process/Popen metho
                  'lookup (via ppid), parent() stops at the lowest PID and returns the parent only '
                  'if it is not younger, vanished children are skipped. Real recycling/time '
                  'granularity is not decided. Also: parent() reaches Process(ppid) for ppid == 0 '
-                 "(only None means 'no parent').",
+                 "(only None means 'no parent'). The handler that skips a vanished child sits "
+                 'inside the loop over the candidates (one vanished child does not drop its '
+                 'siblings).',
          'note': 'Trusted: CFG/dominators; recognition of the work-list idiom (while W: W.pop() '
                  '... W.append()).',
          'technique': 'CFG dominance / control dependence'},
@@ -58,7 +60,8 @@ CLAIMED = {'C01': {'text': 'Decides, for every public psutil.Process/Popen metho
                  "its only update; WIFEXITED/WIFSIGNALED decoding; wait_procs' gone/alive "
                  'bookkeeping. How late a poll fires is a timing fact and is not decided. Also: on '
                  'Windows one deadline covers the native wait and the PID-lingering poll (no path '
-                 'from the native wait to a store of the deadline).',
+                 'from the native wait to a store of the deadline). psutil.Popen.wait() writes the '
+                 "status it obtained back into the wrapped subprocess.Popen's returncode.",
          'note': 'Trusted: CFG/dominators; sign-domain evaluation of guard predicates; monotonic '
                  'clock.',
          'technique': 'CFG dominance, path queries, interval induction'},
@@ -96,7 +99,8 @@ CLAIMED = {'C01': {'text': 'Decides, for every public psutil.Process/Popen metho
                  'table changes and thread schedules are not exercised. Also: on NetBSD/OpenBSD '
                  'pid_exists() lets `pid in pids()` decide in the direction in which kill(pid, 0) '
                  'is known to disagree with the listing; is_running() publishes every recycled '
-                 'verdict whatever the cache holds.',
+                 "verdict whatever the cache holds. Nothing but process_iter()'s own drain removes "
+                 'recycled-PID flags.',
          'note': 'Trusted: primitive raise table; CFG/dominators; recognition of the '
                  'copy-then-rebind idiom.',
          'technique': 'def-use, exception-escape analysis, CFG dominance, try/finally enclosure'},
@@ -148,7 +152,8 @@ CLAIMED = {'C01': {'text': 'Decides, for every public psutil.Process/Popen metho
                  'min terms) and the unit of the swap-in/out page counters. Magnitudes and real '
                  'kernels are not exercised. Also: no value looked up with .get() reaches '
                  'arithmetic where it can still be None (decided on the interpreted result terms '
-                 'of virtual_memory() and swap_memory()).',
+                 'of virtual_memory() and swap_memory()). /proc/zoneinfo that cannot be opened for '
+                 'any OSError selects the simple fallback.',
          'note': 'Trusted: meminfo in kB, vmstat/zoneinfo in pages; interpreter subset.',
          'technique': 'abstract interpretation (provenance, polynomial forms, units)'},
  'C09': {'text': 'Decides, through the public front end and once per diskstats line layout '
@@ -161,7 +166,8 @@ CLAIMED = {'C01': {'text': 'Decides, for every public psutil.Process/Popen metho
                  'exercised. Also: every record yielded by the per-line diskstats loop is built '
                  'from names assigned on every path of that iteration (no counter inherited from '
                  'the previous line); on macOS percent is computed from the corrected `used` that '
-                 'is reported.',
+                 "is reported. is_storage_device() probes /sys/block/<name> with '/' translated to "
+                 "'!' (sysfs naming).",
          'note': 'Trusted: iostats.rst / net/dev header tables (sa/oracles/linux.py); interpreter '
                  "subset; _wrap_numbers is bypassed (nowrap=False) - its slot identity is C10's.",
          'technique': 'abstract interpretation per configuration (provenance, forms), control '
@@ -172,7 +178,9 @@ CLAIMED = {'C01': {'text': 'Decides, for every public psutil.Process/Popen metho
                  'smaps keys (bounded header split, [anon]), the grouping slots and tuple '
                  "compatibility on every platform, and memory_percent's validation order and form. "
                  'Also: a block generator that emits one mapping behind its input yields once more '
-                 'after its loop (the last mapping is listed).',
+                 'after its loop (the last mapping is listed). No unbounded whitespace split can '
+                 "reach the mapping's path; every memtype accepted by memory_percent() is looked "
+                 "up on a record that has that field (evaluated over pfullmem's fields).",
          'note': 'Trusted: proc(5) statm/smaps tables; interpreter subset.',
          'technique': 'abstract interpretation (provenance, forms), regex-literal analysis, table '
                       'agreement'},
@@ -182,7 +190,9 @@ CLAIMED = {'C01': {'text': 'Decides, for every public psutil.Process/Popen metho
                  'of the append, the errno skip policy, provenance of position/flags(base '
                  '8)/fd/path, num_fds, and the /proc/<pid>/io key table with its tolerance of '
                  "blank/malformed lines. Descriptors closing mid-scan are C03's. Also: a blank or "
-                 'malformed /proc/<pid>/io line neither ends the scan (break/return) nor fails it.',
+                 'malformed /proc/<pid>/io line neither ends the scan (break/return) nor fails it. '
+                 'isfile_strict() answers False for every OSError of stat() other than a '
+                 'permission failure.',
          'note': 'Trusted: os.O_* values for Linux (table in absint.OS_CONSTS), fdinfo layout.',
          'technique': 'finite-domain exhaustiveness, abstract interpretation, control dependence'},
  'C11': {'text': 'Decides agreement of the Linux kind table with _common.conn_tmap (11 kinds, '
@@ -192,7 +202,9 @@ CLAIMED = {'C01': {'text': 'Decides, for every public psutil.Process/Popen metho
                  '0 -> ()), the TCP state table, NONE for non-stream, owner/filter structure and '
                  'the pconn/sconn slot order. Hex/endianness address decoding is not decided. '
                  'Also: the shared record builder of the other platforms chooses sconn/pconn by '
-                 '`pid is None`, so a socket held by PID 0 keeps its owner.',
+                 '`pid is None`, so a socket held by PID 0 keeps its owner. Both end-points of an '
+                 'inet row are decoded whatever the socket type (a connected UDP socket keeps its '
+                 'remote address).',
          'note': 'Trusted: /proc/net layouts and tcp_states.h (oracle tables); interpreter subset.',
          'technique': 'table agreement, CFG dominance, abstract interpretation (provenance)'},
  'C12': {'text': "Decides only structural necessary conditions: os.readlink's single call site and "
@@ -221,7 +233,9 @@ CLAIMED = {'C01': {'text': 'Decides, for every public psutil.Process/Popen metho
                  'conditions: not a proof of memory safety, and no sanitizer is run (that is a '
                  'different technique family). Fixed-width record fields may be passed to a helper '
                  'of the extension only if every use of the pointer inside it is length-bounded by '
-                 'a parameter that the call binds to sizeof(field).',
+                 'a parameter that the call binds to sizeof(field). A value shifted into a packed '
+                 'kernel field fits the field (ioprio class: 3 bits); the all=False partition '
+                 'filter tests the normalised device.',
          'note': "Trusted: clang's parser and type checker, the CPython format-unit table, utmp(5) "
                  'on which members are unterminated, my C CFG construction.',
          'technique': 'type-resolved AST rules (clang JSON), C CFG resource typestate, '
@@ -235,7 +249,8 @@ CLAIMED = {'C01': {'text': 'Decides, for every public psutil.Process/Popen metho
                  "before re-allocating and doubles only under the overflow guard. 'Every other "
                  "process unchanged' and the kernel's own behaviour are run-time facts and not "
                  'decided. Also: CPU lists with duplicates select the same CPUs (the front end '
-                 'de-duplicates, or no platform mask is built additively).',
+                 'de-duplicates, or no platform mask is built additively). The ValueError path of '
+                 'ionice() works for plain-int arguments (messages only format their parameters).',
          'note': 'Trusted: Python ast / clang AST, the constant evaluator for guard predicates, '
                  'native name table.',
          'technique': 'CFG dominance, predicate evaluation, AST constant agreement across C '
@@ -248,7 +263,8 @@ CLAIMED = {'C01': {'text': 'Decides, for every public psutil.Process/Popen metho
                  'Directory layouts of real hardware are not exercised. Also: nothing '
                  'appended/yielded inside a per-sensor or per-CPU loop (Linux sensors, cpu_freq() '
                  "on every platform) can still hold the previous iteration's value; cpufreq "
-                 'directories are ordered by CPU number.',
+                 'directories are ordered by CPU number. With fahrenheit=True every reading (0 '
+                 'included) is converted; only None stays None.',
          'note': 'Trusted: sysfs ABI units by file suffix; interpreter subset.',
          'technique': 'abstract interpretation (units with loop fixed point, forms), handler '
                       'inventory'},
@@ -262,7 +278,9 @@ CLAIMED = {'C01': {'text': 'Decides, for every public psutil.Process/Popen metho
                  'no discarded pure-call results in the front end; documentation Availability vs. '
                  'the platform evaluator. Non-Linux C is read textually only. Also: '
                  'NoSuchProcess/AccessDenied are built with (pid, name[, message]) everywhere in '
-                 'the platform modules - only ZombieProcess takes a ppid.',
+                 'the platform modules - only ZombieProcess takes a ppid. procfs accesses in '
+                 'modules whose wrap_exceptions does not translate ENOENT sit under a local '
+                 'translation; the Windows broadcast address is computed for AF_INET and AF_INET6.',
          'note': 'Trusted: translator matrix / role tables in sa/oracles/platforms.py; '
                  "errno<->class mapping; the text extractor's #if evaluator; natives taking the "
                  'pid may raise ESRCH/EPERM/EACCES.',
